@@ -56,6 +56,7 @@ VARIABLES i,
           lastApply, \* when the last list came into force
           out,       \* out[l]: the data sequence numbers that left from l's current socket and have not been retired by
                      \*         what the receiver has sent since (C02, as far as the outside can tell)
+          lastBind,  \* lastBind[l]: when the sender last tried to open a socket for l (-1: not since l was listed)
           rex,       \* sequence numbers the client has offered more than once
           nk, nkx, amb, ambN,  \* nk[l]: loss reports certainly charged to l's current registration (C05); nkx[l]: further ones that
                      \*   may have been; amb[l]: numbers in out[l] that such a report may have retired; ambN: such reports
@@ -66,7 +67,7 @@ VARIABLES i,
 
 vars == <<i, n, timeout, profile, est, known, outst, hi, recent, routed, dups, port, conn, heard, kaT, downLo,
           everUp, repaired, mode, modeT, ackT, kw, kwT, reg1L, reg1T, ansT, seen2, amn, failing, listed, pendL, applyT, refT, lastApply, out,
-          rex, nk, nkx, amb, ambN, subs, statT, pgev, ppgev, ppulls, pstT, ppstT, gOffT, gSel>>
+          lastBind, rex, nk, nkx, amb, ambN, subs, statT, pgev, ppgev, ppulls, pstT, ppstT, gOffT, gSel>>
 
 Links == 1..MaxL
 Handshake == {"reg1", "reg2", "reg3", "reg_err", "reg_ngp"}
@@ -102,7 +103,7 @@ Fresh(r) ==
     /\ failing' = [l \in Links |-> FALSE]
     /\ listed' = (IF "listed" \in DOMAIN r THEN {r.listed[j] : j \in 1..Len(r.listed)} ELSE 1..r.n) /\ pendL' = {} /\ applyT' = -1 /\ refT' = -1 /\ lastApply' = 0
     /\ out' = [l \in Links |-> {}]
-    /\ rex' = {} /\ nk' = [l \in Links |-> 0] /\ nkx' = [l \in Links |-> 0] /\ amb' = [l \in Links |-> {}] /\ ambN' = 0
+    /\ lastBind' = [l \in Links |-> -1] /\ rex' = {} /\ nk' = [l \in Links |-> 0] /\ nkx' = [l \in Links |-> 0] /\ amb' = [l \in Links |-> {}] /\ ambN' = 0
     /\ subs' = (IF "subs" \in DOMAIN r
                 THEN [j \in 1..Len(r.subs) |-> [sid |-> r.subs[j].sid, topic |-> r.subs[j].topic, open |-> TRUE, last |-> -1]]
                 ELSE <<>>)
@@ -128,7 +129,11 @@ WireStep(r, acc, f) ==
                           \* from within the configured timeout when the datagram was accepted
                           !.elig = @ /\ (x.must =>
                                            /\ f.port \in OkPorts(r, f.l)
-                                           /\ ~(heard[f.l] # -1 /\ x.t - heard[f.l] >= timeout))]
+                                           /\ ~(heard[f.l] # -1 /\ x.t - heard[f.l] >= timeout))
+                                     \* ... and a datagram accepted once a session had been established never leaves
+                                     \* from a socket that REG3 has not reached, whatever else is going on (a total
+                                     \* outage, a link that never came up, a reload)
+                                     /\ (x.est => f.port \in OkPorts(r, f.l))]
          ELSE \* nothing outstanding has these bytes: only an identical copy of a datagram that just left on
               \* ANOTHER link (the probe trickle on a stall-gated link) is allowed
               [acc EXCEPT !.dups = @ + 1,
@@ -138,7 +143,7 @@ WireStep(r, acc, f) ==
 (* the premise of C01: some uplink is connected and has been heard from within the configured timeout *)
 Usable(t) == \E l \in 1..n : conn[l] # -1 /\ heard[l] # -1 /\ t - heard[l] < timeout
 Outst0(r) == IF r.ev = "Client" /\ r.sent
-             THEN outst \cup {[k |-> r.k, dig |-> r.dig, t |-> r.t, len |-> r.plen, must |-> est /\ Usable(r.t)]}
+             THEN outst \cup {[k |-> r.k, dig |-> r.dig, t |-> r.t, len |-> r.plen, must |-> est /\ Usable(r.t), est |-> est]}
              ELSE outst
 Wire(r) == FoldLeft(LAMBDA acc, f : WireStep(r, acc, f),
                     [o |-> Outst0(r), h |-> hi, sent |-> recent, routed |-> routed, dups |-> dups, ok |-> TRUE,
@@ -248,7 +253,8 @@ AcctWire(r, acc, f) ==
         a1 == [acc EXCEPT !.o = o1, !.p = [@ EXCEPT ![f.l] = f.port]]
     IN IF f.cls = "data" /\ f.seq >= 0 THEN [a1 EXCEPT !.o = [@ EXCEPT ![f.l] = @ \cup {f.seq}]]
        ELSE IF f.cls = "ka" /\ "ki" \in DOMAIN f /\ f.ki # -1
-            THEN [a1 EXCEPT !.ok = @ /\ (failing[f.l] \/ f.ki = Cardinality(o1[f.l]))]
+            THEN [a1 EXCEPT !.ok = @ /\ (failing[f.l] \/ (/\ f.ki <= Cardinality(o1[f.l])
+                                                             /\ f.ki >= Cardinality(o1[f.l] \ amb[f.l])))]
        ELSE a1
 FirstOther(o, s, skip) ==
     LET H == {l \in Links : l # skip /\ s \in o[l]}
@@ -291,6 +297,23 @@ Acct(r) ==
        /\ amb' = [l \in Links |-> a2.m[l] \cap out'[l]]
        /\ ambN' = a2.c
        /\ rex' = IF r.ev = "Client" /\ "kind" \in DOMAIN r /\ r.kind = "rexmit" THEN rex \cup {r.seq} ELSE rex
+
+(* ---------------- attempts to open an uplink's socket, as the loop's binder sees them (C08) ---------------- *)
+Binds(r) == IF "binds" \in DOMAIN r THEN r.binds ELSE <<>>
+BindStep(acc, b) ==
+    IF b.l \notin Links THEN acc
+    ELSE [acc EXCEPT !.t = [@ EXCEPT ![b.l] = b.t],
+                     \* a retry -- whether the socket could be opened or not -- keeps its distance from the attempt
+                     \* before: a second during initial registration, five once the link has been up.  (The stamp is
+                     \* taken when the socket is opened, which can be some hundred virtual ms after the clock reading
+                     \* of the pass that decided it: the paused clock creeps while the loop waits for a blocking
+                     \* address lookup of a link handled earlier in the same pass.  Hence the slack; a retry at every
+                     \* pass instead of every fifth is still far outside it.)
+                     !.ok = @ /\ (acc.t[b.l] # -1 => b.t - acc.t[b.l] >= (IF everUp[b.l] THEN 5000 - Period ELSE Period \div 2))]
+Sockets(r) ==
+    LET w == FoldLeft(BindStep, [t |-> lastBind, ok |-> TRUE], Binds(r))
+    IN /\ "C08" \in Check => w.ok
+       /\ lastBind' = [l \in Links |-> IF l \in Removed(r) THEN -1 ELSE w.t[l]]
 
 (* ---------------- telemetry: what control clients that read are pushed ---------------- *)
 Pubs(r) == IF "pub" \in DOMAIN r THEN r.pub ELSE <<>>
@@ -460,7 +483,7 @@ LinksOK(r) ==
     /\ downLo' = Gone([l \in Links |-> IF l <= n /\ Torn(r, l) THEN r.t - r.d ELSE downLo[l]], -1, r)
     /\ everUp' = Gone([l \in Links |-> IF l <= n THEN (everUp[l] \/ Conn1(r, l) # -1) ELSE everUp[l]], FALSE, r)
     /\ ReloadChecks(r) /\ ReloadNext(r)
-    /\ Acct(r) /\ Hub(r) /\ Stats(r)
+    /\ Acct(r) /\ Hub(r) /\ Stats(r) /\ Sockets(r)
     /\ est' = (est \/ \E j \in 1..Len(r.rx) : r.rx[j].cls = "reg3")
 
 TraceInit ==
@@ -474,7 +497,7 @@ TraceInit ==
     /\ failing = [l \in Links |-> FALSE]
     /\ listed = {} /\ pendL = {} /\ applyT = -1 /\ refT = -1 /\ lastApply = 0
     /\ out = [l \in Links |-> {}]
-    /\ rex = {} /\ nk = [l \in Links |-> 0] /\ nkx = [l \in Links |-> 0] /\ amb = [l \in Links |-> {}] /\ ambN = 0 /\ subs = <<>> /\ statT = 0
+    /\ lastBind = [l \in Links |-> -1] /\ rex = {} /\ nk = [l \in Links |-> 0] /\ nkx = [l \in Links |-> 0] /\ amb = [l \in Links |-> {}] /\ ambN = 0 /\ subs = <<>> /\ statT = 0
     /\ pgev = [l \in Links |-> -1] /\ ppgev = [l \in Links |-> -1] /\ ppulls = [l \in Links |-> -1]
     /\ pstT = -1 /\ ppstT = -1 /\ gOffT = -1 /\ gSel = FALSE
 
